@@ -1,6 +1,6 @@
 """Replaying command-line histories (assembler.py / file_util.py, in-process through main()) on a temp dir and
 recording, per step, what Tr_Host.tla judges."""
-import os, sys, io, contextlib, tempfile, shutil, json
+import os, sys, io, contextlib, tempfile, shutil, json, re
 from harness import asmio, containers as ct
 
 BIGLEN = 60000
@@ -110,6 +110,7 @@ def replay(args):
         for k, cmd in enumerate(h["cmds"]):
             cmd = dict(cmd)
             preb = open(t, "rb").read() if os.path.exists(t) else None
+            listed = []
             _verif.reset()
             if cmd["tool"] == "api":
                 # the VirtualFile API directly: open, add one catalogue file, save with append (what --append does)
@@ -138,6 +139,11 @@ def replay(args):
                 open(src, "w").write((" NAM P%d\n" % pid if cmd["named"] else "") + " ORG $0E00\nS LDA #%d\n RTS \n" % (pid % 200))
                 argv = [src, "--to_" + cmd["sw"], t] + (["--append"] if cmd["app"] else [])
                 code, out = run_main(assembler, argv)
+            elif cmd["sw"] == "list":
+                code, out = run_main(file_util, [t, "--list"])
+                names = re.findall(r"Filename:\s+(.*)", out)
+                lens = re.findall(r"Data Len:\s+(\d+) bytes", out)
+                listed = [{"name": ct.codes(n.rstrip("\r\n")), "len": int(l)} for n, l in zip(names, lens)] if len(names) == len(lens) else [{"name": [], "len": -2}]
             else:
                 ids = list(range(201, 201 + cmd["srcn"]))
                 names = h.get("srcnames") or {}
@@ -166,7 +172,7 @@ def replay(args):
             post, _ = observe(t, cmd["sw"], not same)
             cmd.pop("select", None)
             events.append({"cmd": cmd, "same": same, "exit": code, "msg": len(out.strip()) > 0, "tb": "TRACEBACK" in out or "Traceback" in out,
-                           "post": post, "hooks": hooks, "stdout": out[-200:]})
+                           "post": post, "hooks": hooks, "stdout": out[-200:], "listed": listed})
     finally:
         shutil.rmtree(W, ignore_errors=True)
     return {"id": hid, "init": {"kind": h["init"]["kind"], "big": h["init"]["big"], "files": h["init"]["files"]},
